@@ -40,9 +40,14 @@ static inline ndsize_t DataFrameDimension_size(const DataFrameDimension *r)
 static inline size_t fits_in_size_t(ndsize_t size, const char *msg_if_fail)
 { return (size_t)size; }
 
+#ifdef C19_BOUNDED
+#define C19_NMAX C19_BOUNDED
+#else
+#define C19_NMAX VEC_MAX
+#endif
 #define C19_PRE(f, T) \
   __CPROVER_requires(__CPROVER_is_fresh(self, sizeof(T)) && NDV_FRESH(self->data.extent) && __CPROVER_is_fresh(dims, sizeof(vec_Dimension)) && \
-                     dims->n <= VEC_MAX && __CPROVER_is_fresh(dims->data, dims->n * sizeof(Dimension)) && gh_dims_base == dims->data && nix_exc == EXC_NONE)
+                     dims->n <= C19_NMAX && __CPROVER_is_fresh(dims->data, dims->n * sizeof(Dimension)) && gh_dims_base == dims->data && nix_exc == EXC_NONE)
 #define C19_MIN(a, b) ((a) < (b) ? (a) : (b))
 /* BREACH(d): descriptor d (0-based, d < rank) is of the checked kind and its length differs from the data length along d */
 #define TICKS_BREACH(d) (dims->data[d].type == DimensionType_Range && dims->data[d].ticks_n != self->data.extent.dims[d])
